@@ -230,14 +230,20 @@ func (c *collector) specFailAt(at int, sf vh.SpecFailure) {
 }
 
 // finish runs the driver over all lines and reports mismatches / spec failures
-func (c *collector) finish() {
-	lines := make([]string, len(c.chks))
-	for i, k := range c.chks {
-		lines[i] = k.line
-	}
-	ans, err := vh.Batch(args.Driver, lines)
-	if err != nil {
-		res.Fatal(args.Out, "driver (%s): %v", c.section, err)
+func (c *collector) finish() { c.finishWith(nil) }
+
+// finishWith: like finish, with the model's answers already computed (one per chk, in order) when ans != nil
+func (c *collector) finishWith(ans []string) {
+	if ans == nil {
+		lines := make([]string, len(c.chks))
+		for i, k := range c.chks {
+			lines[i] = k.line
+		}
+		var err error
+		ans, err = vh.Batch(args.Driver, lines)
+		if err != nil {
+			res.Fatal(args.Out, "driver (%s): %v", c.section, err)
+		}
 	}
 	eq := make([]bool, len(c.chks))
 	skipped := 0
